@@ -145,22 +145,21 @@ PROPS["C06"] = {
     "harnesses": [
         {"pkg": ".", "dir": "s3db", "entry": "VerifH_C06_scan",
          "quick": {"params": "keys=3,constraints=1,maxlayer=1,nulls=1,reopen=0,dels=2,orders=3", "workers": 16, "timeout": 1200},
-         "thorough": {"params": "keys=3,constraints=2,maxlayer=2,nulls=1", "workers": 16, "timeout": 6000}},
+         },
         {"pkg": "sqlite", "dir": "sqlite", "entry": "VerifH_C06_sqlite_scan", "extra": [("s3db_export", ".")], "no_native": True,
          "quick": {"params": "keys=3,constraints=1,leadnonkey=1", "workers": 16, "timeout": 1800},
-         "thorough": {"params": "keys=4,constraints=2", "workers": 16, "timeout": 7200}},
+         },
         {"pkg": ".", "dir": "s3db", "entry": "VerifH_C20_notnull", "quick": {"workers": 4, "timeout": 600}},
         {"pkg": ".", "dir": "s3db", "entry": "VerifH_C20_rowid", "no_native": True, "quick": {"workers": 4, "timeout": 600}},
         {"pkg": ".", "dir": "s3db", "entry": "VerifH_C06_txn_same_time",
-         "quick": {"params": "stmts=2", "workers": 8, "timeout": 600},
-         "thorough": {"params": "stmts=3", "workers": 16, "timeout": 1800}},
+         "quick": {"params": "stmts=2", "workers": 8, "timeout": 600}},
         {"pkg": ".", "dir": "s3db", "entry": "VerifH_C06_scan", "tag": "-empty-table",
          "quick": {"params": "keys=0,constraints=2,maxlayer=1,nulls=1,reopen=0,dels=1,orders=3", "workers": 4, "timeout": 600}},
         {"pkg": ".", "dir": "s3db", "entry": "VerifH_C06_scan", "tag": "-2cons",
          "quick": {"params": "keys=2,constraints=2,maxlayer=1,nulls=0,reopen=0,dels=1,orders=3", "workers": 16, "timeout": 1200}},
     ],
     "bounds": {"quick": "3 symbolic INT keys (full int64) with uninterpreted layers 0..2 (entries_per_node 2: every tree shape of height <= 2), optionally one deleted row, optionally commit + re-open; 0..1 key constraints from {=,<,<=,>=,>} with symbolic INT or NULL operand; ORDER BY none/key asc/key desc/non-key",
-               "thorough": "0..2 constraints"},
+               "thorough": "the quick bound (a deeper one - two constraints on three keys with layers 0..2, four keys at the sqlite layer - did not finish its validation run on the final tree in the time available and is therefore not registered)"},
     "outside": "SQLite's planner/VM (LIMIT, aggregates, IN expansion, affinity), cgo value conversion; TEXT/BLOB/REAL keys in scans",
     "assumptions": [TIME_RANGE, "SQLite re-checks every constraint on every row (ConstraintUsage.Omit is never set) and passes NULL operands to xFilter"],
 }
@@ -200,7 +199,7 @@ PROPS["C02"] = {
     "harnesses": [
         {"pkg": ".", "dir": "s3db", "entry": "VerifH_C02_history",
          "quick": {"params": "stmts=3,writers=2", "workers": 16, "timeout": 1200},
-         "thorough": {"params": "stmts=4,writers=2,firstins=1,nulls=0", "workers": 16, "timeout": 5400}},
+         },
         {"pkg": ".", "dir": "s3db", "entry": "VerifH_C02_history", "tag": "-three-writers", "thorough_only": True,
          "quick": {"params": "stmts=3,writers=3,merger=1,quiesce=0,nulls=0,own=1,firstins=1,extra=0", "workers": 16, "timeout": 3600}},
         {"pkg": ".", "dir": "s3db", "entry": "VerifH_C02_history", "tag": "-upd-upd-del",
@@ -214,7 +213,7 @@ PROPS["C02"] = {
         {"pkg": ".", "dir": "s3db", "entry": "VerifH_selfcheck_mergerows", "quick": {"workers": 1, "timeout": 300, "validate": 4}},
     ],
     "bounds": {"quick": "the repository's own MergeRows/toSQLiteValue/sort-order unit-test cases with the clock symbolic (translator validation); one key, two non-key columns, 3 statements (kind, assigned columns, write time and values symbolic; distinct write times), 2 writers, one optional commit+refresh point, every merge order at the final open",
-               "thorough": "4 symbolic statements of which the first is an INSERT (no NULL values), 2 writers; 3 statements over 3 writers with third-party merges"},
+               "thorough": "the quick bound plus 3 statements over 3 writers with third-party merges and own rows (4 unrestricted statements were run clean on an earlier tree but not re-validated on the final one, so they are not registered)"},
     "outside": "more than 2 columns, more than 4 statements per key",
     "assumptions": [TIME_RANGE, "SQLite passes every column to xUpdate on INSERT; UPDATE/DELETE reach the table only for rows visible to the connection"],
 }
@@ -223,13 +222,13 @@ PROPS["C01"] = {
     "harnesses": [
         {"pkg": ".", "dir": "s3db", "entry": "VerifH_C02_history",
          "quick": {"params": "stmts=3,writers=3,merger=1,quiesce=0,nulls=0,own=1,firstins=1,extra=0", "workers": 16, "timeout": 1800},
-         "thorough": {"params": "stmts=3,writers=3,merger=1,quiesce=0,nulls=1,own=1,firstins=1,extra=1", "workers": 16, "timeout": 7200}},
+         },
         {"pkg": ".", "dir": "s3db", "entry": "VerifH_C02_history", "tag": "-quiescence",
          "quick": {"params": "stmts=2,writers=3,merger=1,quiesce=1,nulls=0,own=0,firstins=1", "workers": 16, "timeout": 1800},
-         "thorough": {"params": "stmts=3,writers=2,merger=1,quiesce=1,nulls=0,own=0,firstins=1", "workers": 16, "timeout": 7200}},
+         },
     ],
     "bounds": {"quick": "one key, 3 symbolic statements over 3 writers that started from the same table; one optional intermediate point where either everybody commits and refreshes or a third party merges the current versions into an intermediate version; every permutation of the version list at every open (symbolic shuffle); then a merging open and a quiescent re-open",
-               "thorough": "the same with NULL values and a bystander row that only one writer touches; quiescence after 3 statements over 2 writers"},
+               "thorough": "the quick bound (deeper ones did not finish their validation run on the final tree in the time available and are therefore not registered)"},
     "outside": "more than one key per history (tree-level diff is exercised by C16/C17), more than 4 statements",
     "assumptions": [TIME_RANGE, "distinct write times on the row (the property's precondition)", "the expected row is the documented outcome (C02's oracle), so equal results for all merge orders and groupings follow from equality with it"],
 }
